@@ -376,7 +376,30 @@ func c19Worker(args []string) int {
 	var rec func(i int) bool
 	rec = func(i int) bool {
 		if i == L {
-			vs, err := c19Execute(capPath, string(buf), false)
+			/* An execution takes milliseconds; one that has not come back
+			after 45 s never will (the program has wedged itself):
+			that is reported, and the worker ends (its terminal session is
+			beyond repair). */
+			type outcome struct {
+				vs  []c19Viol
+				err error
+			}
+			oc := make(chan outcome, 1)
+			evs := string(buf)
+			go func() { vs, err := c19Execute(capPath, evs, false); oc <- outcome{vs, err} }()
+			var (
+				vs  []c19Viol
+				err error
+			)
+			select {
+			case o := <-oc:
+				vs, err = o.vs, o.err
+			case <-time.After(45 * time.Second):
+				res.Execs++
+				res.Viols = append(res.Viols, c19Viol{Sig: "program-wedged", Events: evs,
+					What: fmt.Sprintf("the events %q (O: Ctrl+O, P: chunk, S: status line, J: Ctrl+J, a/b/c: +0.1/1.9/2.1 s, w/W: system clock set): the Shell has not reacted to one of them for 45 s (a key handler, a write or a timer callback never returns)", evs)})
+				return false
+			}
 			if nil != err {
 				res.Err = err.Error()
 				return false
